@@ -41,9 +41,8 @@ Definition qp (x : Q) := (Z.ltb (Qnum x) 0, Z.abs_N (Qnum x), Npos (Qden x)).
 Definition ev (p : pomdp Q) (f : fsc Q) V rep tol vtol M (k : nat) :=
   (c09_eval_check p f V rep tol vtol M, map (map qp) (ret_tab p f (pabs p) k)).
 Definition hp (t : list Q * list Q) := (map qp (fst t), map qp (snd t)).
-Definition hi (p : pomdp Q) (f : fsc Q) :=
-  ([hp (c09_hist_tables (pA p) (pO p) f 1); hp (c09_hist_tables (pA p) (pO p) f 2);
-    hp (c09_hist_tables (pA p) (pO p) f 3)], shared_rows p f, det_ctrl p f).
+Definition hi (p : pomdp Q) (f : fsc Q) (L : nat) :=
+  (map (fun k => hp (c09_hist_tables (pA p) (pO p) f k)) (seq 1 L), shared_rows p f, det_ctrl p f).
 Definition lc (p : pomdp Q) (f : fsc Q) V rep rtol kpi kom tol vtol :=
   c09_learn_check p f V rep rtol kpi kom tol vtol.
 Definition mc (tol : Q) (S : nat) (l : list (list (list Q))) := @mono_chain Q NumQ tol S l.
@@ -54,7 +53,14 @@ Definition stp (p : pomdp Q) (f : fsc Q) tol (V : list (list Q)) (n : nat) eps :
 EVAL_CLAUSES = ["pomdp_wfb", "fsc_wfb", "abs_benign", "system_masked", "system_code", "vbound", "value_ok"]
 LEARN_CLAUSES = ["pomdp_wfb", "rows_valid", "bounded", "contraction", "abs_benign", "system_masked", "system_code", "value_ok"]
 GAMMAS = ["1/2", "3/4", "9/10"]
-KSTEPS = {"1/2": 16, "3/4": 20, "9/10": 20}   # exact rationals grow with k: keep each term ~1 s
+GAMMA_NEAR1 = "1048575/1048576"     # 1 - 2^-20
+KSTEPS = {"1/2": 16, "3/4": 20, "9/10": 20, "0": 2, GAMMA_NEAR1: 10}   # exact rationals grow with k: keep each term ~1 s
+LABEL_POOLS = {
+    "int": [0, 1, 2, 3, 4, 5, 6],                       # 0 is a label; assigned in random (non-sorted) order
+    "str": ["", "a", "B", "c1", "zz", "A b", "0"],      # "" is a label; upper/lower case sort apart
+    "tuple": [[], [0], [0, 0], [1], [1, 0], [2, 5]],    # () is a label
+    "boolint": [False, True, 2, 3],                     # False is a label
+}
 
 
 # ----------------------------------------------------------------------------
@@ -98,7 +104,37 @@ def _row_on(rng, n, allowed, kmax=3):
     return _row(rng, n, support=rng.sample(list(allowed), k))
 
 
-def gen_pomdp(rng, abs_kind=None, smax=4, amax=3, omax=3, smin=1, amin=1, omin=1, unreach=False):
+def _tiny_row(rng, n, allowed):
+    """probabilities 2^-30 / 2^-20 / 1 - (...) : exact doubles next to the boundaries 0 and 1"""
+    sup = rng.sample(list(allowed), min(len(allowed), rng.randint(2, 3)))
+    if len(sup) < 2:
+        return _row(rng, n, support=sup)
+    ps = [F(1, 2 ** 30)] + ([F(1, 2 ** 20)] if len(sup) == 3 else [])
+    ps.append(1 - sum(ps))
+    rng.shuffle(ps)
+    row = [F(0)] * n
+    for i, p in zip(sup, ps):
+        row[i] = p
+    return row
+
+
+def gen_labels(rng, nS, nA, nO, kinds=None):
+    """labels for generator indices (None = the index itself)"""
+    out = {}
+    for key, n in (("s", nS), ("a", nA), ("o", nO)):
+        kind = (kinds or {}).get(key) or rng.choice(["int", "str", "tuple", "boolint"])
+        pool = list(LABEL_POOLS[kind])
+        if n > len(pool):
+            kind, pool = "int", list(LABEL_POOLS["int"])
+        # keep the falsy label (0, "", (), False) in most of the time
+        lab = [pool[0]] + rng.sample(pool[1:], n - 1) if rng.random() < .8 else rng.sample(pool, n)
+        rng.shuffle(lab)
+        out[key] = lab
+    return out
+
+
+def gen_pomdp(rng, abs_kind=None, smax=4, amax=3, omax=3, smin=1, amin=1, omin=1, unreach=False,
+              extremes=False, labels=False, near1=False):
     """unreach: the POMDP is given to msdm with EXPLICIT _state_list/_action_list and has at least one state
     that cannot be reached from the initial distribution (with real dynamics and rewards of its own): the
     evaluator's table is checked at every (node, state) pair, reachable or not"""
@@ -128,7 +164,8 @@ def gen_pomdp(rng, abs_kind=None, smax=4, amax=3, omax=3, smin=1, amin=1, omin=1
                     if paying_selfloop:
                         Rw[s][a][s] = F(rng.choice([-4, -3, -2, -1, 1, 2, 3, 4]))
                     continue
-                T[s][a] = _row_on(rng, nS, live_set) if (unreach and s in live_set) else _row(rng, nS)
+                allowed = live_set if (unreach and s in live_set) else list(range(nS))
+                T[s][a] = _tiny_row(rng, nS, allowed) if (extremes and rng.random() < .4) else _row_on(rng, nS, allowed)
                 for t in range(nS):
                     if T[s][a][t] > 0 and rng.random() < .8:
                         Rw[s][a][t] = F(rng.randint(-16, 16), 4) if rng.random() < .3 else F(rng.randint(-4, 4))
@@ -136,7 +173,10 @@ def gen_pomdp(rng, abs_kind=None, smax=4, amax=3, omax=3, smin=1, amin=1, omin=1
                 # make sure the terminal state really is non-benign
                 if all(Rw[s][a][t] == 0 for a in range(nA) for t in range(nS)) and all(T[s][a][s] == 1 for a in range(nA)):
                     Rw[s][0][s] = F(2)
-        Ob = [[_row(rng, nO) for _ in range(nS)] for _ in range(nA)]
+        Ob = [[(_tiny_row(rng, nO, range(nO)) if (extremes and rng.random() < .3) else _row(rng, nO)) for _ in range(nS)] for _ in range(nA)]
+        if extremes:
+            scale = rng.choice([1, 1000, 10 ** 6])        # large reward magnitudes
+            Rw = [[[x * scale for x in row] for row in sa] for sa in Rw]
         s0 = _row_on(rng, nS, live_set) if unreach else _row(rng, nS)
         if unreach:
             if _reachable(nS, nA, T, absorbing, s0) == set(range(nS)):
@@ -150,10 +190,13 @@ def gen_pomdp(rng, abs_kind=None, smax=4, amax=3, omax=3, smin=1, amin=1, omin=1
             Ob = [[[Ob[a][t][o] for o in used] for t in range(nS)] for a in range(nA)]
             nO = len(used)
         gamma = rng.choice(GAMMAS)
+        if extremes:
+            gamma = rng.choice(["0", "0", GAMMA_NEAR1 if near1 else "9/10", "1/2"])
         st = lambda x: [st(y) for y in x] if isinstance(x, list) else str(x)
         return {"nS": nS, "nA": nA, "nO": nO, "T": st(T), "Rw": st(Rw), "Ob": st(Ob),
                 "absorbing": absorbing, "s0": st(s0), "gamma": gamma, "abs_kind": abs_kind,
-                "explicit_lists": bool(unreach),
+                "explicit_lists": bool(unreach), "gamma_int": bool(extremes and gamma == "0" and rng.random() < .5),
+                "labels": gen_labels(rng, nS, nA, nO) if labels else None,
                 "unreachable": sorted(set(range(nS)) - _reachable(nS, nA, T, absorbing, s0))}
     raise RuntimeError("gen_pomdp: no case")
 
@@ -276,41 +319,83 @@ def scale_of(V):
 # ----------------------------------------------------------------------------
 # case generation
 # ----------------------------------------------------------------------------
+def _same_shape_pomdp(rng, pc, **kw):
+    """another POMDP with the same sizes / labels / list form but different numbers (object-reuse cases)"""
+    for _ in range(30):
+        p2 = gen_pomdp(rng, smin=pc["nS"], smax=pc["nS"], amin=pc["nA"], amax=pc["nA"], omin=pc["nO"], omax=pc["nO"], **kw)
+        if p2["nO"] == pc["nO"]:
+            p2["labels"] = pc.get("labels")
+            return p2
+    return None
+
+
 def gen_cases(rng, tier):
     cases = []
     n_eval = 36 if tier == "quick" else 600
     for i in range(n_eval):
         # input forms of stochastic_fsc_policy_evaluation_exact: node transitions 4-d p(n'|n,a,o) or 3-d p(n'|n,o)
         # (broadcast over actions by the code; needs >= 2 actions and >= 2 observations to be told apart from a
-        # scrambled broadcast), with / without fsc_initial_state (always both), dtype float64 / float32
+        # scrambled broadcast), with / without fsc_initial_state (always both), dtype float64 / float32;
+        # POMDP forms: inferred lists / explicit lists with unreachable states; index labels / int, str, tuple, bool
+        # labels in non-sorted order (falsy labels included); parameter extremes (discount 0 as float or int,
+        # discount 1-2^-20, probabilities 2^-30 and 1-2^-20.., rewards x1e3 / x1e6); bundled domains
         form3 = i % 3 == 0
+        f32 = i % 6 in (3, 4)
+        labels = i % 2 == 1
+        extremes = i % 5 == 2
+        if i % 18 == 17:
+            pc = dict(DOMAINS["tiger" if (i // 18) % 2 == 0 else "heavenorhell"])
+            fc = gen_fsc(rng, pc["shape"][0], pc["shape"][2], nmax=2)
+            cases.append({"kind": "eval", "pomdp": pc, "fsc": fc, "hist_len": 2, "runs": 4, "run_seed": rng.randrange(10 ** 6), "max_steps": 6,
+                          "om_form": "4d", "eval_dtype": "float64"})
+            continue
         if form3:
-            pc = gen_pomdp(rng, amin=2, omin=2, smin=2)
+            pc = gen_pomdp(rng, amin=2, omin=2, smin=2, labels=labels, extremes=extremes, near1=not f32)
             fc = gen_fsc(rng, pc["nA"], pc["nO"], om3=True, style=rng.choice(["generic", "generic", "onehot_init", "det"]))
             if fc["N"] == 1:      # one node: every broadcast is the same
                 fc = gen_fsc(rng, pc["nA"], pc["nO"], om3=True, style="generic")
         elif i % 4 == 1:
             # explicit state list with states unreachable from the initial distribution
-            pc = gen_pomdp(rng, unreach=True)
+            pc = gen_pomdp(rng, unreach=True, labels=labels, extremes=extremes, near1=not f32)
             fc = gen_fsc(rng, pc["nA"], pc["nO"])
         else:
-            pc = gen_pomdp(rng)
+            pc = gen_pomdp(rng, labels=labels, extremes=extremes, near1=not f32)
             fc = gen_fsc(rng, pc["nA"], pc["nO"])
-        cases.append({"kind": "eval", "pomdp": pc, "fsc": fc, "hist_len": 3, "runs": 3, "run_seed": rng.randrange(10 ** 6), "max_steps": 6,
-                      "om_form": "3d" if form3 else "4d", "eval_dtype": "float32" if i % 6 in (3, 4) else "float64"})
-    n_bpi = 9 if tier == "quick" else 90
+        cases.append({"kind": "eval", "pomdp": pc, "fsc": fc, "hist_len": 3, "runs": 4, "run_seed": rng.randrange(10 ** 6), "max_steps": 6,
+                      "om_form": "3d" if form3 else "4d", "eval_dtype": "float32" if f32 else "float64"})
+    n_bpi = 10 if tier == "quick" else 90
     for i in range(n_bpi):
         kind = ["none", "none", "benign", "paying"][i % 4] if tier == "quick" else rng.choice(["none", "none", "benign", "paying"])
-        pc = gen_pomdp(rng, abs_kind=kind, smax=3, amax=2, omax=2, smin=2, amin=2, omin=1 + (i % 4 != 3), unreach=(i % 3 == 2))
-        cases.append({"kind": "bpi", "pomdp": pc, "nodes": 1 + i % 3, "seed": 1 + i % 3 if tier == "quick" else rng.randint(1, 9),
-                      "iterations": rng.randint(1, 4) if tier == "quick" else rng.randint(1, 20)})
+        kw = dict(abs_kind=kind, unreach=(i % 3 == 2), labels=(i % 2 == 0), extremes=(i % 5 == 3))
+        if i % 10 == 9:
+            pc = dict(DOMAINS["tiger"])
+        else:
+            pc = gen_pomdp(rng, smax=3, amax=2, omax=2, smin=2, amin=2, omin=1 + (i % 4 != 3), **kw)
+        c = {"kind": "bpi", "pomdp": pc, "nodes": 1 + i % 3, "seed": i % 3 if tier == "quick" else rng.randint(0, 9),
+             # step caps 0 and 1 included
+             "iterations": (0 if i % 10 == 0 else 1 if i % 10 == 5 else rng.randint(1, 4)) if tier == "quick" else rng.randint(0, 20),
+             # every public node-improvement routine / LP back end
+             "improve_fn": "cvxpy" if i % 10 == 4 else "matrix_cvxpy_lp" if i % 10 == 7 else "matrix",
+             "runs": 4, "run_seed": rng.randrange(10 ** 6), "max_steps": 5}
+        if i % 3 == 1 and "domain" not in pc:
+            c["pomdp_prev"] = _same_shape_pomdp(rng, pc, **kw)      # the learner object is first trained on this one
+        cases.append(c)
     n_ga = 6 if tier == "quick" else 60
     for i in range(n_ga):
         kind = ["none", "benign", "paying"][i % 3]
-        pc = gen_pomdp(rng, abs_kind=kind, smax=3, amax=2, omax=2, smin=2, amin=2, omin=2, unreach=(i % 4 == 1))
-        cases.append({"kind": "ga", "pomdp": pc, "nodes": 1 + i % 3, "seed": 1 + i % 3 if tier == "quick" else rng.randint(1, 9),
-                      "iterations": rng.randint(2, 8) if tier == "quick" else rng.randint(1, 40),
-                      "dtype": "float32" if i % 6 == 5 else "float64"})
+        kw = dict(abs_kind=kind, unreach=(i % 4 == 1), labels=(i % 2 == 1), extremes=(i % 6 == 2))
+        pc = gen_pomdp(rng, smax=3, amax=2, omax=2, smin=2, amin=2, omin=2, **kw)
+        c = {"kind": "ga", "pomdp": pc, "nodes": 1 + i % 3, "seed": i % 3 if tier == "quick" else rng.randint(0, 9),
+             "iterations": (0 if i % 6 == 0 else 1 if i % 6 == 1 else rng.randint(2, 8)) if tier == "quick" else rng.randint(0, 40),
+             "dtype": "float32" if i % 6 == 5 else "float64",
+             "runs": 4, "run_seed": rng.randrange(10 ** 6), "max_steps": 5}
+        if i % 6 == 3:
+            c["optimizer"] = "SGD"
+        if i % 6 == 4:
+            c["log_iteration_progress"] = 1
+        if i % 3 == 2:
+            c["pomdp_prev"] = _same_shape_pomdp(rng, pc, **kw)
+        cases.append(c)
     return cases
 
 
@@ -331,15 +416,52 @@ class Reporter:
             self.ctx.violation(sig, detail, found=found)
 
 
-def index_lists_ok(pc, res):
-    return (res.get("state_list") == list(range(pc["nS"])) and res.get("action_list") == list(range(pc["nA"]))
-            and res.get("observation_list") == list(range(pc["nO"])))
+DOMAINS = {
+    "tiger": {"domain": "tiger", "coherence": "3/4", "gamma": "3/4", "abs_kind": "none", "shape": [3, 2, 2]},
+    "heavenorhell": {"domain": "heavenorhell", "coherence": "3/4", "gamma": "1/2", "grid": "hcg\n#s#", "abs_kind": "paying",
+                     "shape": [5, 8, 6]},
+}
 
 
-def check_runs(case, res):
-    """conformance of real run_on executions to the episode convention of the model"""
-    pc = case["pomdp"]
+def _pairs_to_str(x):
+    if isinstance(x, list) and len(x) == 2 and all(isinstance(v, int) and not isinstance(v, bool) for v in x):
+        return str(F(x[0], x[1]))
+    return [_pairs_to_str(y) for y in x]
+
+
+def model_pomdp(pc, res):
+    """the POMDP in POSITION space (indices into msdm's state_list / action_list / observation_list):
+    generated cases are permuted by the lists msdm reports (as generator indices); bundled domains are read
+    off the matrices msdm exposes.  None if the reported lists are not permutations of the generator's."""
+    if "domain" in pc:
+        m = res.get("matrices")
+        if not m or res.get("shape") != pc["shape"]:
+            return None
+        T, Rw, Ob = _pairs_to_str(m["T"]), _pairs_to_str(m["Rw"]), _pairs_to_str(m["Ob"])
+        return {"nS": len(T), "nA": len(T[0]), "nO": len(Ob[0][0]), "T": T, "Rw": Rw, "Ob": Ob,
+                "absorbing": list(m["absorbing"]), "s0": _pairs_to_str(m["s0"]), "gamma": pc["gamma"],
+                "abs_kind": pc["abs_kind"], "unreachable": []}
+    ps, pa, po = res.get("state_list"), res.get("action_list"), res.get("observation_list")
+    if ps is None or pa is None or po is None:
+        return None
+    if sorted(ps) != list(range(pc["nS"])) or sorted(pa) != list(range(pc["nA"])) or sorted(po) != list(range(pc["nO"])):
+        return None
+    out = dict(pc)
+    out["T"] = [[[pc["T"][s][a][t] for t in ps] for a in pa] for s in ps]
+    out["Rw"] = [[[pc["Rw"][s][a][t] for t in ps] for a in pa] for s in ps]
+    out["Ob"] = [[[pc["Ob"][a][t][o] for o in po] for t in ps] for a in pa]
+    out["absorbing"] = [pc["absorbing"][s] for s in ps]
+    out["s0"] = [pc["s0"][s] for s in ps]
+    out["unreachable"] = [ps.index(u) for u in pc.get("unreachable", [])]
+    out["perm"] = [ps, pa, po]
+    return out
+
+
+def check_runs(case, res, pc, init):
+    """conformance of real run_on executions to the episode convention of the model (position space);
+    init = the controller's initial node distribution as exact doubles"""
     T, Ob, Rw = fr(pc["T"]), fr(pc["Ob"]), fr(pc["Rw"])
+    s0v = fr(pc["s0"])
     ab = pc["absorbing"]
     runs = res.get("runs")
     if isinstance(runs, dict):
@@ -349,8 +471,13 @@ def check_runs(case, res):
         if not steps or steps[-1]["a"] is not None:
             return "trajectory does not end with the terminal marker step"
         body = steps[:-1]
-        if steps[0]["s"] != tr["s0"]:
+        if tr["s0"] is not None and steps[0]["s"] != tr["s0"]:
             return "first state is not the requested initial state"
+        if tr["s0"] is None and s0v[steps[0]["s"]] <= 0:
+            return "sampled initial state has zero initial probability"
+        want_ag = tr["ag0"] if tr.get("ag0") is not None else init
+        if [vlib.frac(x) for x in steps[0]["ag"]] != [vlib.frac(x) for x in want_ag]:
+            return "first agent state is not the (given / default) initial agent state"
         for i, st in enumerate(body):
             if ab[st["s"]]:
                 return "a step was taken from an absorbing state"
@@ -360,7 +487,9 @@ def check_runs(case, res):
                 return "reward is not reward(s, a, ns)"
             if steps[i + 1]["s"] != st["ns"] or steps[i + 1]["ag"] != st["nag"]:
                 return "state / agent state not threaded through"
-        if not ab[steps[-1]["s"]] and len(body) != case["max_steps"]:
+        if len(body) > tr["max_steps"]:
+            return "more steps than max_steps"
+        if not ab[steps[-1]["s"]] and len(body) != tr["max_steps"]:
             return "episode ended in a non-absorbing state before max_steps"
     return None
 
@@ -380,16 +509,25 @@ def run(ctx):
     distinct = set()
     nruns = 0
     forms = {}
+    mpcs = {}
     for i, (case, res) in enumerate(zip(cases, impl)):
-        pc = case["pomdp"]
+        gpc = case["pomdp"]
         if "error" in res:
             report("C09:impl-error:" + res["error"].split(":")[0], {"case": case, "error": res["error"], "trace": res.get("trace")}, found=True)
             continue
-        if not index_lists_ok(pc, res):
-            report("C09:harness:index-lists-unexpected", {"case": case, "lists": {k: res.get(k) for k in ("state_list", "action_list", "observation_list")}}, found=False)
+        pc = model_pomdp(gpc, res)      # position space: everything below is indexed as msdm indexes it
+        if pc is None:
+            report("C09:harness:index-lists-unexpected", {"case": case, "lists": {k: res.get(k) for k in ("state_list", "action_list", "observation_list", "shape")}}, found=False)
             continue
+        mpcs[i] = pc
         feats["abs_" + pc["abs_kind"]] += 1
         feats["explicit_lists_with_unreachable_states"] = feats.get("explicit_lists_with_unreachable_states", 0) + int(bool(pc.get("unreachable")))
+        for key, val in (("labelled", bool(gpc.get("labels"))), ("order_differs_from_generator", bool(pc.get("perm")) and any(p != sorted(p) for p in pc["perm"])),
+                         ("bundled_domain", "domain" in gpc), ("gamma_0", pc["gamma"] == "0"), ("gamma_int", bool(gpc.get("gamma_int"))),
+                         ("gamma_near_1", pc["gamma"] == GAMMA_NEAR1), ("reused_learner", bool(case.get("pomdp_prev"))),
+                         ("seed_0", case.get("seed") == 0), ("iterations_0", case.get("iterations") == 0),
+                         ("improve_fn_" + str(case.get("improve_fn")), case["kind"] == "bpi")):
+            feats[key] = feats.get(key, 0) + int(val)
         pt = pomdp_term(pc)
         if case["kind"] == "eval":
             fc = case["fsc"]
@@ -415,14 +553,20 @@ def run(ctx):
             if isinstance(res.get("hist"), dict) and "error" in res["hist"]:
                 report("C09:controller:raises:" + res["hist"]["error"].split(":")[0], {"case": case, "error": res["hist"]["error"]}, found=True)
             else:
-                terms.append("hi %s %s" % (pt, ft))
+                terms.append("hi %s %s %s" % (pt, ft, nat(case.get("hist_len", 3))))
                 meta.append(("hi", i, None))
-            why = check_runs(case, res)
+                # the same controller held as torch tensors (what gradient ascent returns) must behave identically
+                ht = res.get("hist_torch2")
+                if isinstance(ht, dict) or (case.get("hist_len", 3) >= 2 and ht != res["hist"]["2"]):
+                    report("C09:controller:tensor-controller-differs-from-array-controller",
+                           {"case": case, "tensor": ht if isinstance(ht, dict) else None,
+                            "clause": "the same controller gives two different probabilities to a history"}, found=True)
+            why = check_runs(case, res, pc, [vlib.fjson(float(vlib.frac(x))) for x in fc["init"]])
             nruns += 1
             if why:
                 report("C09:run_on:episode-convention", {"case": case, "clause": why, "runs": res.get("runs")}, found=True)
             if not all(pc["absorbing"]):
-                distinct.add(vlib.structural_hash([pc, fc]))
+                distinct.add(vlib.structural_hash([gpc, fc]))
         else:
             learner = case["kind"]
             r = res["result"]
@@ -445,7 +589,12 @@ def run(ctx):
             kap = 1 + 10 * rtol
             terms.append("lc %s %s %s %s %s %s %s %s %s" % (pt, ft, qmat(r["V"]), q(r["value"]), q(rtol), q(kap), q(kap), q(tol), q(vtol)))
             meta.append(("lc", i, {"tol": tol, "vtol": vtol, "rtol": rtol}))
-            distinct.add(vlib.structural_hash([pc, case["nodes"], case["seed"], case["iterations"], learner]))
+            distinct.add(vlib.structural_hash([gpc, case["nodes"], case["seed"], case["iterations"], learner, case.get("improve_fn")]))
+            # executing the RETURNED controller object obeys the episode convention too
+            why = check_runs(case, res, pc, r["init"])
+            nruns += 1
+            if why:
+                report("C09:run_on:episode-convention", {"case": case, "clause": why, "runs": res.get("runs"), "learner": learner}, found=True)
             if learner == "bpi":
                 evs = res["evals"]
                 # the returned controller/value must be the last evaluated one
@@ -485,7 +634,7 @@ def run(ctx):
     cert_ok = eval_defect = hist_defect = hist_equal = hist_theorem_cases = hist_total = hist_drift = 0
     for (kind, i, extra), v in zip(meta, vals):
         case, res = cases[i], impl[i]
-        pc = case["pomdp"]
+        pc = mpcs[i]
         if isinstance(v, vlib.CoqError):
             report("C09:coq-evaluation-failed", {"case": case, "term_kind": kind, "error": str(v)[:800]}, found=False)
             continue
@@ -531,13 +680,13 @@ def run(ctx):
             if not fl_["value_ok"]:
                 report("C09:evaluator:expected-value-not-init-V-s0", {"case": case, "impl": res["eval"]}, found=True)
         elif kind == "hi":
-            ((i1, s1), (i2, s2), (i3, s3)), shared, det = v
+            tabs, shared, det = v
             fc = case["fsc"]
             hist_total += 1
             steps = [(a, o) for a in range(pc["nA"]) for o in range(pc["nO"])]
             bad_mirror = None
             bad_spec = None
-            for L, mir, spec in ((1, i1, s1), (2, i2, s2), (3, i3, s3)):
+            for L, (mir, spec) in enumerate(tabs, start=1):
                 real = [vlib.frac(x) if is_num(x) else None for x in res["hist"][str(L)]]
                 hs = [[]]
                 for _ in range(L):
